@@ -38,3 +38,87 @@ Definition item_ok (it : item) : bool :=
 (* message envelope: strict version word | type (low 16 bits), name, sequence id *)
 Definition enc_msg (name : bytes) (ty seq : Z) : bytes :=
   be 4 (2147549184 + Z.to_N (ty mod 65536)%Z) ++ be 4 (len name mod two32) ++ name ++ be 4 (u32 seq).
+
+(* ---------- reference decoder: what the format says about an arbitrary byte string ----------
+   [ref_dec k b] = the item of kind k that b starts with and its extent, or None when b is too
+   short for it (or a string length is negative).  Written directly on the byte list. *)
+Definition cut (n : N) (b : bytes) : option (bytes * bytes) :=
+  if n <=? len b then Some (take n b, drop n b) else None.
+
+Definition ref_int (w : N) (n : N) (b : bytes) : option (Z * N) :=
+  match cut n b with Some (h, _) => Some (to_signed w (unbe h), n) | None => None end.
+
+Definition ref_str (b : bytes) : option (bytes * N) :=
+  match cut 4 b with
+  | Some (h, r) =>
+    let sz := to_signed 32 (unbe h) in
+    if (sz <? 0)%Z then None
+    else match cut (Z.to_N sz) r with Some (s, _) => Some (s, 4 + Z.to_N sz) | None => None end
+  | None => None
+  end.
+
+Definition ref_dec (k : kind) (b : bytes) : option (item * N) :=
+  match k with
+  | KBool => match b with x :: _ => Some (IBool (x =? 1), 1) | [] => None end
+  | KByte => match ref_int 8 1 b with Some (v, n) => Some (IByte v, n) | None => None end
+  | KI16 => match ref_int 16 2 b with Some (v, n) => Some (II16 v, n) | None => None end
+  | KI32 => match ref_int 32 4 b with Some (v, n) => Some (II32 v, n) | None => None end
+  | KI64 => match ref_int 64 8 b with Some (v, n) => Some (II64 v, n) | None => None end
+  | KDouble => match cut 8 b with Some (h, _) => Some (IDouble (unbe h), 8) | None => None end
+  | KBinary => match ref_str b with Some (s, n) => Some (IBinary s, n) | None => None end
+  | KString => match ref_str b with Some (s, n) => Some (IString s, n) | None => None end
+  | KFieldBegin =>
+    match b with
+    | [] => None
+    | 0 :: _ => Some (IFieldStop, 1)
+    | t :: r => match cut 2 r with
+                | Some (h, _) => Some (IFieldBegin (to_signed 8 t) (to_signed 16 (unbe h)), 3)
+                | None => None
+                end
+    end
+  | KMapBegin =>
+    match b with
+    | kt :: vt :: r => match cut 4 r with
+                       | Some (h, _) => Some (IMapBegin (to_signed 8 kt) (to_signed 8 vt) (Z.of_N (unbe h)), 6)
+                       | None => None
+                       end
+    | _ => None
+    end
+  | KListBegin =>
+    match b with
+    | et :: r => match cut 4 r with
+                 | Some (h, _) => Some (IListBegin (to_signed 8 et) (Z.of_N (unbe h)), 5)
+                 | None => None
+                 end
+    | [] => None
+    end
+  | KSetBegin =>
+    match b with
+    | et :: r => match cut 4 r with
+                 | Some (h, _) => Some (ISetBegin (to_signed 8 et) (Z.of_N (unbe h)), 5)
+                 | None => None
+                 end
+    | [] => None
+    end
+  end.
+
+(* message envelope: (name, type, seq, extent); None when truncated / negative name length;
+   the version check is separate *)
+Definition ref_version_ok (b : bytes) : option bool :=
+  match cut 4 b with
+  | Some (h, _) => Some (unbe h / 65536 =? 32769)      (* upper half = 0x8001 *)
+  | None => None
+  end.
+Definition ref_msg (b : bytes) : option (bytes * Z * Z * N) :=
+  match cut 4 b with
+  | Some (h, r) =>
+    match ref_str r with
+    | Some (name, n) =>
+      match ref_int 32 4 (drop n r) with
+      | Some (seq, _) => Some (name, Z.of_N (unbe h mod 65536), seq, 4 + n + 4)
+      | None => None
+      end
+    | None => None
+    end
+  | None => None
+  end.
